@@ -814,6 +814,7 @@ var invalidAnywhere = []string{
 	"new;", "x=;", ");", "}", "]", "throw\n1;", "var a=;", "a?b;", "a?b:;", "this=1;", "for(1 in o);", "({a:1,,b:2});", "x=\"\\u12\";", "x='\\x1';",
 	"if(1)else;", "x=a+;", "x=typeof;", "var x,;", "x={a};", "x={a:};", "x=[1 2];", "label:label:x;", "x=a..b;", "x=.;", "tru\\u0065=0;", "var \\u0069f;",
 	"x=\"abc\n\";", "x=1e;", "x=0x;",
+	"x=/(?</;", "x=/a(?<!/;", "x=/(?<=/;", "x=/(?</g;", "x=/\\/;",
 	"x=1e3in{};", "x=.5E-2instanceof Object;", "x=0e0in[];", "x=3in[];", "x=01a;", "x=0x3in[];", "x=1.5a;", "x=1.e;",
 	"a:{continue a;}", "a:switch(1){case 1:continue a;}", "for(;;){(function(){continue;})()}", "while(1){(function(){break;})()}",
 	"b:{(function(){b:{}break b;})()}", "x=function(){return}return;",
